@@ -375,6 +375,11 @@ def run_job(job, coll):
     elif k == "status":
         for c in status_shapes():
             coll.check(c, run_case)
+        # long runs of frames that complete no message (one receive call has to get through all of them)
+        for n in (1500, 3000):
+            for unit in (b"\x8a\x00", b"\x89\x01p", b"\x00\x01c"):
+                head = b"\x01\x01s" if unit[0] == 0 else b""
+                coll.check({"phase": "frames", "data": head + unit * n + (b"\x80\x00" if head else b"\x81\x02ok"), "driver": "recv", "cf": False, "mut": "long-run"}, run_case)
         coll.exhaustive["status-line shape product (version x code x reason x tail)"] = True
     elif k == "cookies":
         for c in cookie_shapes():
